@@ -747,6 +747,181 @@ theorem l1_sound_call (v : Gen.Variant) (d : Decoder (famOfVariant v)) (bytes : 
   simp only [List.drop_zero, hcall, hlen, Bool.false_eq_true, false_and, if_false, Nat.add_zero,
     List.nil_append]
 
+/-! #### maximality in the semantic sense: byte `n` is not passed through
+
+The Rust documentation promises "the index of the first byte whose unsigned value doesn't
+directly correspond to the decoded Unicode scalar value". That is true of every variant with
+one exception: Shift_JIS decodes the byte `0x80` to U+0080 and stays neutral
+(`shiftJis_0x80_passes`), but the answer is the length of the ASCII run, so it stops at a
+`0x80` (`shiftJis_0x80_answer`). The answer is then a lower bound (still sound: `l1_sound_ref`,
+`l1_sound_call`), not the exact index. -/
+
+theorem ne_pass_of_out {σ : Type} (r : FeedRes σ) (s : σ) (b : Nat) (h : r.out ≠ [b]) :
+    r ≠ ⟨s, [b], none, false⟩ := fun e => h (by rw [e])
+
+/-- a leaf `.ok st out` / `.bad …` of a feed function whose output is not `[b]` -/
+macro "stop_leaf" : tactic =>
+  `(tactic| (apply ne_pass_of_out; simp [FeedRes.ok, FeedRes.bad] <;> omega))
+
+theorem singleByte_stop (t : Array Nat) (b : Nat) (h1 : ¬ b < 0x80) (h2 : t.getD (b - 0x80) 0 ≠ b) :
+    singleByteFeed t () b ≠ ⟨(), [b], none, false⟩ := by
+  unfold singleByteFeed
+  rw [if_neg h1]
+  apply ne_pass_of_out
+  show (if t.getD (b - 0x80) 0 = 0 then FeedRes.bad () 1 0 else FeedRes.ok () [t.getD (b - 0x80) 0]).out ≠ [b]
+  split
+  · intro hc; cases hc
+  · intro hc; exact h2 (List.cons.inj hc).1
+
+theorem utf8_stop (s : Utf8St) (hn : s.needed = 0) (b : Nat) (h : ¬ b < 0x80) :
+    utf8Feed s b ≠ ⟨s, [b], none, false⟩ := by
+  unfold utf8Feed
+  rw [if_pos hn, if_neg h]
+  repeat' split
+  all_goals stop_leaf
+
+theorem gb_stop (b : Nat) (h : ¬ b < 0x80) : gbFeed gbInit b ≠ ⟨gbInit, [b], none, false⟩ := by
+  unfold gbFeed
+  simp only [gbInit]
+  rw [if_neg h]
+  repeat' split
+  all_goals stop_leaf
+
+theorem twoByte_stop (lf : Nat → LeadRes) (tf : Nat → Nat → TrailRes) (a : Bool) (b : Nat) (h : ¬ b < 0x80)
+    (hl : lf b ≠ .out b) : (twoByteFam lf tf a).feed none b ≠ ⟨none, [b], none, false⟩ := by
+  show twoByteFeed lf tf none b ≠ _
+  simp only [twoByteFeed]
+  rw [if_neg h]
+  cases hlb : lf b with
+  | lead l => stop_leaf
+  | out c =>
+    intro he
+    have hc : [c] = [b] := congrArg FeedRes.out he
+    rw [(List.cons.inj hc).1] at hlb
+    exact hl hlb
+  | bad => stop_leaf
+
+theorem big5Lead_ne_out (b : Nat) : big5Lead b ≠ .out b := by
+  unfold big5Lead; simp only []; split <;> (intro h; cases h)
+
+theorem eucKrLead_ne_out (b : Nat) : eucKrLead b ≠ .out b := by
+  unfold eucKrLead; simp only []; split <;> (intro h; cases h)
+
+theorem shiftJisLead_ne_out (b : Nat) (h80 : b ≠ 0x80) (hb : b < 256) : shiftJisLead b ≠ .out b := by
+  unfold shiftJisLead
+  simp only []
+  repeat' split
+  all_goals intro h
+  all_goals first
+    | (injection h with h; omega)
+    | cases h
+
+theorem eucJp_stop (b : Nat) (h : ¬ b < 0x80) :
+    eucJpFeed EucJpSt.none b ≠ ⟨EucJpSt.none, [b], none, false⟩ := by
+  unfold eucJpFeed
+  simp only []
+  rw [if_neg h]
+  repeat' split
+  all_goals stop_leaf
+
+theorem iso_stop (b : Nat) (h : ¬ (b < 0x80 ∧ b ≠ 0x0E ∧ b ≠ 0x0F ∧ b ≠ 0x1B)) :
+    isoFeed isoInit b ≠ ⟨isoInit, [b], none, false⟩ := by
+  unfold isoFeed
+  simp only [isoInit]
+  split
+  · stop_leaf
+  · rename_i h1
+    have h2 : b > 0x7F ∨ b = 0x0E ∨ b = 0x0F := by omega
+    rw [if_pos h2]
+    stop_leaf
+
+theorem userDefined_stop (b : Nat) (h : ¬ b < 0x80) :
+    userDefinedFeed () b ≠ ⟨(), [b], none, false⟩ := by
+  unfold userDefinedFeed
+  rw [if_neg h]
+  stop_leaf
+
+/-- Shift_JIS: the byte 0x80 decodes to U+0080 and leaves the decoder neutral … -/
+theorem shiftJis_0x80_passes : shiftJisFam.feed none 0x80 = ⟨none, [0x80], none, false⟩ := by
+  show twoByteFeed shiftJisLead shiftJisTrail none 0x80 = _
+  simp [twoByteFeed, shiftJisLead, wsub8, FeedRes.ok]; rfl
+
+/-- … but the answer stops at it: the one case in which the answer is not the index of the first
+byte that decodes to something other than its own value -/
+theorem shiftJis_0x80_answer (pre : List Nat) :
+    Decoder.l1 .shiftJis ⟨.converting, .nominal none⟩ (0x61 :: 0x80 :: pre) = some 1 := rfl
+
+/-- **in a neutral state the first byte that is not counted is not passed through** (it is an
+error, a lead byte, or decodes to another scalar value) — for every variant, except for the
+byte 0x80 of Shift_JIS -/
+theorem neutral_stop (v : Gen.Variant) (s : (famOfVariant v).σ) (hn : NeutralSt v s) (b : Nat)
+    (hb : passP v b = false) :
+    (famOfVariant v).feed s b ≠ ⟨s, [b], none, false⟩ ∨ (v = .shiftJis ∧ (b = 0x80 ∨ 256 ≤ b)) := by
+  cases v with
+  | singleByte t a b' c =>
+    have h : ¬ (b < 0x80 ∨ (Gen.singleByteTables.getD t #[]).getD (b - 0x80) 0 = b) := of_decide_eq_false hb
+    exact Or.inl (singleByte_stop _ b (fun h1 => h (Or.inl h1)) (fun h2 => h (Or.inr h2)))
+  | utf8 => exact Or.inl (utf8_stop s hn b (of_decide_eq_false hb))
+  | gbk =>
+    have hs : s = gbInit := hn
+    subst hs
+    exact Or.inl (gb_stop b (of_decide_eq_false hb))
+  | gb18030 =>
+    have hs : s = gbInit := hn
+    subst hs
+    exact Or.inl (gb_stop b (of_decide_eq_false hb))
+  | big5 =>
+    have hs : s = none := hn
+    subst hs
+    exact Or.inl (twoByte_stop _ _ _ b (of_decide_eq_false hb) (big5Lead_ne_out b))
+  | eucJp =>
+    have hs : s = EucJpSt.none := hn
+    subst hs
+    exact Or.inl (eucJp_stop b (of_decide_eq_false hb))
+  | iso2022Jp =>
+    have hs : s = isoInit := hn
+    subst hs
+    exact Or.inl (iso_stop b (of_decide_eq_false hb))
+  | shiftJis =>
+    have hs : s = none := hn
+    subst hs
+    by_cases hx : b = 0x80 ∨ 256 ≤ b
+    · exact Or.inr ⟨rfl, hx⟩
+    · exact Or.inl (twoByte_stop _ _ _ b (of_decide_eq_false hb) (shiftJisLead_ne_out b (by omega) (by omega)))
+  | eucKr =>
+    have hs : s = none := hn
+    subst hs
+    exact Or.inl (twoByte_stop _ _ _ b (of_decide_eq_false hb) (eucKrLead_ne_out b))
+  | replacement => exact hn.elim
+  | utf16Be => exact hn.elim
+  | utf16Le => exact hn.elim
+  | userDefined => exact Or.inl (userDefined_stop b (of_decide_eq_false hb))
+
+theorem neutralCur_stop (v : Gen.Variant) (c : Cur (famOfVariant v)) (hn : NeutralCur v c) (b : Nat)
+    (hb : passCur v c b = false) :
+    ¬ CurPasses c b ∨ (v = .shiftJis ∧ (b = 0x80 ∨ 256 ≤ b)) := by
+  cases c with
+  | nominal s => exact neutral_stop v s hn b hb
+  | utf8 s => exact Or.inl (utf8_stop s hn b (of_decide_eq_false hb))
+  | utf16be s => exact hn.elim
+  | utf16le s => exact hn.elim
+
+/-- **C19 `l1_sound`, exactness**: if the decoder answers `some n`, each of the first `n` bytes,
+fed to the current decoder, is passed through as the scalar value equal to the byte and leaves
+the state unchanged; and byte `n`, if there is one, is not — it is the first byte that does not
+decode to its own value — with the one exception of Shift_JIS's 0x80 (`shiftJis_0x80_passes`). -/
+theorem l1_sound_exact (v : Gen.Variant) (d : Decoder (famOfVariant v)) (bytes : List Nat) (n : Nat)
+    (h : Decoder.l1 v d bytes = some n) :
+    (∀ x ∈ bytes.take n, CurPasses d.cur x) ∧
+    (n < bytes.length → ∃ b, bytes[n]? = some b ∧
+      (¬ CurPasses d.cur b ∨ (v = .shiftJis ∧ (b = 0x80 ∨ 256 ≤ b)))) := by
+  obtain ⟨⟨_, hc⟩, hn⟩ := (l1_eq_some_iff v d bytes n).1 h
+  rw [l1Len_eq] at hn
+  subst hn
+  refine ⟨fun x hx => (neutralCur_pass v d.cur hc).2 x (upTo_take_all _ bytes x hx), fun hlt => ?_⟩
+  obtain ⟨b, hb, hP⟩ := upTo_maximal _ bytes hlt
+  exact ⟨b, hb, neutralCur_stop v d.cur hc b hP⟩
+
 /-! Non-vacuity -/
 example : singleByteL1 (Gen.singleByteTables.getD 19 #[]) [0x61, 0xE9, 0x62, 0x80, 0x63] = 3 := by decide +kernel
 example : asciiValidUpTo [0x61, 0x62, 0xE9] = 2 := by decide
